@@ -67,6 +67,10 @@ fn main() {
         i += 1;
     }
     ctx::install_panic_hook();
+    if id.len() == 3 && id.starts_with('C') {
+        let root = std::env::var_os("VERIF_ROOT").map(std::path::PathBuf::from).unwrap_or_else(|| std::path::PathBuf::from("/verif"));
+        ctx::start_hang_monitor(&id, tier.name(), seed, root);
+    }
     let code = checks::dispatch(&id, tier, seed, &extra);
     std::process::exit(code);
 }
